@@ -22,6 +22,10 @@ func init() {
 }
 
 func runC18(p *Prog, r *Report) {
+	if want("C18.13") {
+		// (shared with C09)
+		ruleCompTriggerSiblings(p, r, "C18.13")
+	}
 	if want("C18.12") {
 		// after Close nothing panics: no send on the closed buffer pool
 		ruleNoSendOnClosedChannel(p, r, "C18.12")
